@@ -497,13 +497,45 @@ def solve(ob: Obligation, timeout_ms=10000, use_cli=True) -> Verdict:
         if ob.tainted:
             return Verdict(ob, "undecided", "z3", dt, detail="sat on a tainted path: " + ob.tainted)
         return Verdict(ob, "refuted", "z3-%s(api)" % z3.get_version_string(), dt, model=s.model())
-    # unknown: try the CLI back ends on the SMT-LIB text
+    # unknown: z3's behaviour on the quantified obligations of the byte-level stream contracts is unstable (the same
+    # obligation is decided in 0.2 s or left open after 150 s depending on instantiation luck): a small portfolio of other
+    # front ends of the SAME solver over the same assertions, each with a short budget, before the external back ends
+    for kind in ("simplify+smt", "tactic-default", "seed-7", "seed-23"):
+        try:
+            if kind == "simplify+smt":
+                s2 = z3.Then("simplify", "propagate-values", "solve-eqs", "smt").solver()
+            elif kind == "tactic-default":
+                s2 = z3.Tactic("default").solver()
+            else:
+                s2 = z3.Solver()
+                s2.set("smt.random_seed", int(kind.split("-")[1]))
+                s2.set("sat.random_seed", int(kind.split("-")[1]))
+            b2 = min(timeout_ms, 10000)
+            s2.set("timeout", b2)
+            for a in s.assertions():
+                s2.add(a)
+            from .core import guarded_check
+
+            if guarded_check(s2, b2) == z3.unsat:
+                return Verdict(ob, "discharged", "z3-%s(api,%s)" % (z3.get_version_string(), kind), time.time() - t0)
+        except z3.Z3Exception:
+            pass
+    # ... then the CLI back ends on the SMT-LIB text
     if use_cli:
         smt = s.to_smt2()
+        import shutil
+
+        z3new = shutil.which("z3-new")
         for name, cmd in (
+            # the same z3 5.1.0 as a separate process on the SMT-LIB text: a fresh context with the command-line front end's
+            # default strategy decides, within seconds, a handful of receive-half obligations that the API solver object
+            # (same version) leaves open after 20 s - and unlike z3 4.8 it does so reliably
+            (("z3-5.1.0(cli)", [z3new, "-T:%d" % max(1, timeout_ms // 1000), "-smt2"]) if z3new else (None, None)),
             ("cvc5-1.0.3", ["/usr/bin/cvc5", "--tlimit=%d" % timeout_ms, "--lang=smt2"]),
             ("z3-4.8.12", ["/usr/bin/z3", "-T:%d" % max(1, timeout_ms // 1000), "-smt2"]),
         ):
+            if name is None:
+                continue
             try:
                 with tempfile.NamedTemporaryFile("w", suffix=".smt2", delete=False) as f:
                     f.write(smt)
